@@ -12,6 +12,7 @@ import (
 	"fmt"
 	"net/netip"
 	"syscall"
+	"time"
 
 	"golang.org/x/net/bpf"
 
@@ -258,4 +259,121 @@ func replayAttach(scn json.RawMessage, choices []int) (string, bool, bool) {
 		return s + "ORACLE FAILED: " + key + ": " + detail + "\n", false, true
 	}
 	return s + "oracle: ok\n", true, true
+}
+
+// ---- the real capture source when its filter is replaced while frames are queued -------------------------------
+//
+// The SACK run installs the SYN-ACK filter and later the tuple filter on the same handle. After SetPacketFilter(B)
+// returns, the handle must only hand out frames B accepts (frames queued under the previous program are drained), and
+// a frame B accepts that arrives afterwards must come through.
+
+type SScn struct {
+	A string `json:"first_filter"`  // "none" = no filter yet
+	B string `json:"second_filter"` // "none" = filtering removed
+}
+
+func swapScns() []SScn {
+	names := []string{"none", "icmp", "udp", "synack", "tuple-1", "tuple-2"}
+	var out []SScn
+	for _, a := range names {
+		for _, b := range names {
+			if a != b {
+				out = append(out, SScn{a, b})
+			}
+		}
+	}
+	return out
+}
+
+func specOrNone(name string) packets.PacketFilterSpec {
+	if name == "none" {
+		return packets.PacketFilterSpec{FilterType: packets.FilterTypeNone}
+	}
+	s, _ := attachSpec(name)
+	return s
+}
+
+func acceptsFn(name string) func(frame []byte) bool {
+	if name == "none" {
+		return func([]byte) bool { return true }
+	}
+	spec, _ := attachSpec(name)
+	prog, err := packets.VerifClassicBPF(spec)
+	if err != nil {
+		panic(err)
+	}
+	vm := vmFor(prog)
+	return func(f []byte) bool { k, _ := vm.Run(f); return k > 0 }
+}
+
+func runSwap(sc *SScn) (string, string) {
+	p, err := newPair()
+	if err != nil {
+		return "", ""
+	}
+	defer syscall.Close(p.tx)
+	src := packets.VerifAFPacketSourceFromFD(p.rx)
+	defer src.Close()
+	frames := attachFrames()
+	var names []string
+	for n := range frames {
+		if n != "arp" {
+			names = append(names, n)
+		}
+	}
+	sortStr(names)
+	if err := src.SetPacketFilter(specOrNone(sc.A)); err != nil && sc.A != "none" {
+		return "set-filter-failed", err.Error()
+	}
+	for _, n := range names {
+		syscall.Sendto(p.tx, frames[n], 0, nil)
+	}
+	if err := src.SetPacketFilter(specOrNone(sc.B)); err != nil {
+		if sc.B == "none" {
+			return "", "" // removing a filter that was never attached may be refused by the kernel
+		}
+		return "set-filter-failed", err.Error()
+	}
+	okB := acceptsFn(sc.B)
+	// frames sent after the swap carry a marker in the IP identification field
+	for _, n := range names {
+		f := append([]byte{}, frames[n]...)
+		f[18], f[19] = 0xab, 0xcd
+		syscall.Sendto(p.tx, f, 0, nil)
+	}
+	got := map[string]bool{}
+	buf := make([]byte, 2048)
+	for {
+		src.SetReadDeadline(time.Now().Add(30 * time.Millisecond))
+		k, err := src.Read(buf)
+		if err != nil {
+			break
+		}
+		pkt := buf[:k]
+		name, after := "", false
+		for _, n := range names {
+			ip := frames[n][14:]
+			if len(pkt) == len(ip) && string(pkt[:4]) == string(ip[:4]) && string(pkt[6:]) == string(ip[6:]) {
+				name, after = n, pkt[4] == 0xab && pkt[5] == 0xcd
+			}
+		}
+		if name == "" {
+			return "unknown-frame-read", fmt.Sprintf("% x", pkt)
+		}
+		if !okB(frames[name]) {
+			return "handle-returned-a-frame-its-filter-rejects", fmt.Sprintf("after SetPacketFilter(%s) returned (previous filter %s), the handle handed out frame %q (sent after the swap: %v)", sc.B, sc.A, name, after)
+		}
+		if sc.B != "none" && !after {
+			return "frame-queued-before-the-swap-survived", fmt.Sprintf("previous filter %s, new filter %s: frame %q was queued before SetPacketFilter returned", sc.A, sc.B, name)
+		}
+		if after {
+			got[name] = true
+		}
+	}
+	for _, n := range names {
+		if okB(frames[n]) && !got[n] {
+			return "matchable-frame-hidden", fmt.Sprintf("filter %s (after %s): frame %q arrived after the swap and was not handed out", sc.B, sc.A, n)
+		}
+	}
+	return "", ""
 }
